@@ -47,6 +47,11 @@ pub struct Scenario {
     /// into the image between two files; anything keyed by the identity of the buffers goes stale)
     #[serde(default)]
     pub prior_ok_patched: bool,
+    /// a configuration knob the code under test was seen to read from the environment (a name
+    /// outside the usual ones, recorded by the seam) set to this value for the judged call: the
+    /// property holds for every setting - Err is acceptable, Ok implies an exactly right file
+    #[serde(default)]
+    pub knob: Option<(String, String)>,
     /// a second caller thread inside a writer at the same time (own image, own path), both
     /// under the token scheduler with yield points at every intercepted libc call
     #[serde(default)]
@@ -306,6 +311,7 @@ pub fn scenario_shape(tier: &str, base_seed: u64, g: u64) -> Scenario {
             hash_seed: seed,
             prior_failed_call: None,
             prior_ok_patched: false,
+            knob: None,
             duo: None,
             config: "sweep".into(),
             out_rel: OUT_REL.to_string(),
@@ -379,6 +385,7 @@ pub fn scenario_shape(tier: &str, base_seed: u64, g: u64) -> Scenario {
         },
         prior_failed_call: if matches!(config, "free" | "cap") && r.chance(1, 2) { Some(["is-directory", "missing-dir", "write-enospc"][r.usize(3)].to_string()) } else { None },
         prior_ok_patched: false,
+        knob: None,
         config: config.into(),
         out_rel: if config != "duo" && config != "sweep" && r.chance(1, 4) {
             let raw = raw_byte_char([0xE4u8, 0xFF, 0x80, 0xC3][r.usize(4)]);
@@ -562,6 +569,9 @@ pub fn execute(sc: &Scenario, scratch: &Scratch, budget: u64) -> Result<RunOut, 
         o.alone = alone;
         return Ok(o);
     }
+    if let Some((k, v)) = &sc.knob {
+        std::env::set_var(k, v);
+    }
     let old_tmpdir = std::env::var_os("TMPDIR");
     if sc.tmpdir_is_outdir {
         if let Some(d) = out_path.parent() {
@@ -599,6 +609,9 @@ pub fn execute(sc: &Scenario, scratch: &Scratch, budget: u64) -> Result<RunOut, 
             Some(v) => std::env::set_var("TMPDIR", v),
             None => std::env::remove_var("TMPDIR"),
         }
+    }
+    if let Some((k, _)) = &sc.knob {
+        std::env::remove_var(k);
     }
     if limit.is_some() {
         // in case of a panic inside the call
@@ -756,7 +769,7 @@ fn faulted(sc: &Scenario) -> bool {
     // a directory at the output path is a fault of the environment: the call cannot succeed
     // (a stale marker file next to the output: a writer that honours such markers may refuse
     // visibly; what it may not do is return Ok without the right file)
-    !sc.rules.is_empty() || sc.write_cap > 0 || sc.fsize_limit.is_some() || sc.pre_kind == "dir" || sc.missing_parent || sc.stale_sibling.is_some()
+    !sc.rules.is_empty() || sc.write_cap > 0 || sc.fsize_limit.is_some() || sc.pre_kind == "dir" || sc.missing_parent || sc.stale_sibling.is_some() || sc.knob.is_some()
 }
 
 /// Judge one executed scenario. `fired` = a rule fired or the kernel limit bit.
@@ -1062,6 +1075,31 @@ pub fn worker(cfg: &WorkerCfg, emit: &mut dyn FnMut(Violation)) -> Stats {
             emit(v);
             if found >= cfg.max_violations {
                 break;
+            }
+        }
+        // configuration knobs: a name outside the usual ones that the code under test asked the
+        // environment for - the same scenario once more with the knob set (nothing to do on a
+        // tree that reads none)
+        let knobs: std::collections::BTreeSet<String> = out.state.trace.iter().filter(|e| e.call == Call::Getenv).map(|e| e.path.clone()).collect();
+        if sc.duo.is_none() && sc.knob.is_none() {
+            for k in knobs {
+                const MENU: &[&str] = &["24", "3", "255", "7", "1", "0", "100", "256", "4096", "20", "true", "yes", "", "-1", "abc", "65536"];
+                let mut s2 = sc.clone();
+                s2.knob = Some((k, MENU[r.usize(MENU.len())].to_string()));
+                let b2 = if budget == u64::MAX { budget } else { budget.saturating_mul(64) };
+                match execute(&s2, &scratch, b2) {
+                    Ok(o2) => {
+                        stats.runs += 1;
+                        stats.fired("knob-set");
+                        stats.runs_with_fired_fault += 1;
+                        stats.probe("configuration_knob_read_from_the_environment_set", true);
+                        if let Some(v) = judge(&s2, &o2, seed) {
+                            found += 1;
+                            emit(v);
+                        }
+                    }
+                    Err(e) => stats.harness_errors.push(e),
+                }
             }
         }
         g += cfg.nworkers;
